@@ -1,3 +1,166 @@
-/-! # C14 — property theorems (to be written) -/
+import BddVerif.Lemmas.ParserPrint
+/-!
+# C14 — the expression parser is total and implements the documented grammar
+
+Property theorems about the executable model `B.Parser` (Model/Parser.lean) of
+`src/boolean_expression/_impl_parser.rs` and of `Display for BooleanExpression`.
+Helper lemmas: `Lemmas/ParserTotal.lean`, `Lemmas/ParserGrammar.lean`, `Lemmas/ParserPrint.lean`.
+
+Termination: `tokGroup` and the eight mutually recursive parsing functions are defined by well-founded
+recursion (on the length of the unread input, resp. on (number of tokens in the tree, level)); Lean
+accepts the definitions only with the termination proofs given in Model/Parser.lean. The two progress
+checks inserted into `tokGroup` for that purpose are unreachable — that is part of `parse_total`.
+-/
 namespace B.Props.C14
+open B B.Parser
+
+/-- **Totality.** `BooleanExpression::try_from` returns `Ok` or `Err` for every input string: the model
+    has no `panic` outcome on any `List Char` — neither the slice in `cond()`, nor a stray token in
+    `terminal()`, nor the modelling artefacts of the tokenizer. -/
+theorem parse_total (s : List Char) : (parse s).isPanic = false := parse_no_panic s
+
+/-- the tokenizer alone, for nested (`top = false`) and top-level groups -/
+theorem tokenize_total (s : List Char) (top : Bool) : (tokGroup s top).isPanic = false :=
+  tokGroup_no_panic s top
+
+/-- the unread rest returned by `tokenize_group` is never longer than its input (the recursion of the
+    Rust function consumes the iterator) -/
+theorem tokenize_consumes (s : List Char) (top : Bool) (ts : List Tok) (rest : List Char)
+    (h : tokGroup s top = .ok (ts, rest)) : rest.length ≤ s.length := by
+  have := tokGroup_good s top
+  rw [h] at this
+  exact this
+
+/-- every parsing function is total on every token tree -/
+theorem parse_tokens_total (ts : List Tok) :
+    (parseFormula ts).isPanic = false ∧ (iffP ts).isPanic = false ∧ (impP ts).isPanic = false ∧
+    (condP ts).isPanic = false ∧ (orP ts).isPanic = false ∧ (andP ts).isPanic = false ∧
+    (xorP ts).isPanic = false ∧ (terminalP ts).isPanic = false :=
+  ⟨parsers_no_panic.1 ts, parsers_no_panic.2.1 ts, parsers_no_panic.2.2.1 ts, parsers_no_panic.2.2.2.1 ts,
+   parsers_no_panic.2.2.2.2.1 ts, parsers_no_panic.2.2.2.2.2.1 ts, parsers_no_panic.2.2.2.2.2.2.1 ts,
+   parsers_no_panic.2.2.2.2.2.2.2 ts⟩
+
+/-- **Grammar.** A token tree is accepted with tree `e` exactly when `e` is derived by the documented
+    grammar (`Der 6`: `!` tightest, then `^`, `&`, `|`, the non-nesting `?:`, `=>`, `<=>`; right-associative
+    binary operators; parentheses; `true`/`false`). -/
+theorem parse_tokens_iff_grammar (ts : List Tok) (e : Expr) : parseFormula ts = .ok e ↔ Der 6 ts e :=
+  parseFormula_iff_der ts e
+
+/-- the same for strings: accepted ⇔ the tokenizer succeeds and the token tree is in the grammar -/
+theorem parse_iff_grammar (s : List Char) (e : Expr) :
+    parse s = .ok e ↔ ∃ ts rest, tokGroup s true = .ok (ts, rest) ∧ Der 6 ts e := by
+  unfold parse
+  constructor
+  · intro h
+    cases ht : tokGroup s true with
+    | ok p =>
+      obtain ⟨ts, rest⟩ := p
+      rw [ht] at h
+      exact ⟨ts, rest, rfl, (parseFormula_iff_der ts e).mp h⟩
+    | err m => rw [ht] at h; cases h
+    | panic m => rw [ht] at h; cases h
+  · rintro ⟨ts, rest, ht, hd⟩
+    rw [ht]
+    exact (parseFormula_iff_der ts e).mpr hd
+
+/-- the grammar is unambiguous: a token tree has at most one expression tree -/
+theorem grammar_unambiguous (ts : List Tok) (e e' : Expr) (h : Der 6 ts e) (h' : Der 6 ts e') : e = e' := by
+  have h1 := (parseFormula_iff_der ts e).mpr h
+  have h2 := (parseFormula_iff_der ts e').mpr h'
+  rw [h1] at h2
+  cases h2
+  rfl
+
+/-- whatever is rejected is outside the grammar (the error outcomes are exactly the non-derivable trees) -/
+theorem rejected_iff_not_grammar (ts : List Tok) : (parseFormula ts).isErr = true ↔ ¬ ∃ e, Der 6 ts e := by
+  have hp := parsers_no_panic.1 ts
+  constructor
+  · rintro h ⟨e, he⟩
+    rw [(parseFormula_iff_der ts e).mpr he] at h
+    simp [Outcome.isErr] at h
+  · intro h
+    cases hr : parseFormula ts with
+    | ok e => exact absurd ⟨e, (parseFormula_iff_der ts e).mp hr⟩ h
+    | err m => rfl
+    | panic m => rw [hr] at hp; simp [Outcome.isPanic] at hp
+
+/-- **Round trip, token level.** -/
+theorem print_parse_tokens (e : Expr) (h : NoKeywordNames e) : parseFormula (toks e) = .ok e :=
+  parseFormula_toks e h
+
+/-- the tokenizer reads the printed text back as the printed token tree -/
+theorem tokenize_display (e : Expr) (h : SafeNames e) : tokGroup (display e) true = .ok (toks e, []) := by
+  have := tokGroup_display e h [] true trivial
+  rw [List.append_nil] at this
+  rw [this, tokGroup.eq_def [] true]
+  simp [pushAll_ok]
+
+/-- **Round trip.** Printing any expression over parser-safe names (non-empty, no whitespace, no
+    `NOT_IN_VAR_NAME` character, not `true`/`false`) and parsing the text returns the identical tree. -/
+theorem print_parse (e : Expr) (h : SafeNames e) : parse (display e) = .ok e := parse_display e h
+
+/-- the hypothesis cannot be dropped: a variable called `true` does not survive the round trip -/
+theorem print_parse_needs_safe_names : parse (display (.var kwTrue)) = .ok (.const true) := by
+  have := tokGroup_ident kwTrue [] true (by decide) safe_kw.1 trivial
+  rw [List.append_nil] at this
+  unfold parse
+  simp only [display]
+  rw [this, tokGroup.eq_def [] true]
+  simp only [if_true, Parser.push]
+  exact (parseFormula_iff_der _ _).mpr (Der.lift Der.tt (by omega) (by omega))
+
+/-- tie to the regenerated constant: every character that has an arm of its own in `tokenize_group`
+    (and the second/third characters of `=>`, `<=>`) belongs to `NOT_IN_VAR_NAME`, and no character of
+    the keywords does -/
+theorem special_chars_not_in_names :
+    (∀ c ∈ ['!', '&', '|', '^', ':', '?', '=', '<', '>', ')', '('], Gen.notInVarName.contains c = true) ∧
+    (∀ c ∈ kwTrue ++ kwFalse, Gen.notInVarName.contains c = false) := by decide
+
+/-! ### non-vacuity -/
+
+def exA : Expr := .var ['a']
+def exX0 : Expr := .var ['x', '_', '0']
+/-- `(a ? !x_0 : (a <=> (x_0 ^ true)))` -/
+def exTree : Expr := .cond exA (.not exX0) (.iff exA (.xor exX0 (.const true)))
+
+theorem exTree_safe : SafeNames exTree := by
+  simp only [exTree, exA, exX0, SafeNames, and_true]
+  decide
+
+example : parse (display exTree) = .ok exTree := print_parse exTree exTree_safe
+
+/-- precedence and associativity on a concrete token string: `a | b & !c ^ d & e` is `a | ((b & (!c ^ d)) … )` -/
+example : parseFormula [.id ['a'], .or, .id ['b'], .and, .not, .id ['c'], .xor, .id ['d'], .and, .id ['e']] =
+    .ok (.or (.var ['a']) (.and (.var ['b']) (.and (.xor (.not (.var ['c'])) (.var ['d'])) (.var ['e'])))) := by
+  apply (parse_tokens_iff_grammar _ _).mpr
+  have ha : Der 0 [.id ['a']] (.var ['a']) := Der.ident _ (by decide) (by decide)
+  have hb : Der 0 [.id ['b']] (.var ['b']) := Der.ident _ (by decide) (by decide)
+  have hc : Der 0 [.id ['c']] (.var ['c']) := Der.ident _ (by decide) (by decide)
+  have hd : Der 0 [.id ['d']] (.var ['d']) := Der.ident _ (by decide) (by decide)
+  have he : Der 0 [.id ['e']] (.var ['e']) := Der.ident _ (by decide) (by decide)
+  have hx : Der 1 ([.not, .id ['c']] ++ .xor :: [.id ['d']]) _ := Der.xorS (Der.neg hc) (hd.lift (by omega) (by omega))
+  have h2 : Der 2 (([.not, .id ['c']] ++ .xor :: [.id ['d']]) ++ .and :: [.id ['e']]) _ :=
+    Der.andS hx (he.lift (by omega) (by omega))
+  have h3 : Der 2 ([.id ['b']] ++ .and :: (([.not, .id ['c']] ++ .xor :: [.id ['d']]) ++ .and :: [.id ['e']])) _ :=
+    Der.andS (hb.lift (by omega) (by omega)) h2
+  have h4 := Der.orS (ha.lift (by omega) (by omega) : Der 2 _ _) (h3.lift (by omega) (by omega) : Der 3 _ _)
+  exact h4.lift (by omega) (by omega)
+
+/-- the conditional does not nest without parentheses: `a ? b : c ? d : e` has no derivation
+    (first `?` at 1, first `:` at 3, the third part `c ? d : e` is not an `or`-level string) -/
+example : (parseFormula [.id ['a'], .qmark, .id ['b'], .colon, .id ['c'], .qmark, .id ['d'], .colon, .id ['e']]).isErr = true := by
+  rw [parseFormula_eq]
+  simp only [isSingleGroup]
+  rw [iffP_eq, impP_eq, condP_eq]
+  simp only [indexOfFirst, Tok.eqK, Tok.tag]
+  simp
+  rw [orP_eq, andP_eq, xorP_eq, terminalP]
+  simp only [indexOfFirst, Tok.eqK, Tok.tag]
+  simp
+  rw [orP_eq, andP_eq, xorP_eq, terminalP]
+  simp only [indexOfFirst, Tok.eqK, Tok.tag]
+  simp
+  rw [orP_eq, andP_eq, xorP_eq, terminalP.eq_def]
+  simp [indexOfFirst, Tok.eqK, Tok.tag, Outcome.bind, Outcome.isErr, kwTrue, kwFalse]
+
 end B.Props.C14
